@@ -116,6 +116,18 @@ class read_tl_num_from_stream(Contract):
         cx.run.ghost['rs'] = dict(st=st, p0=p0, bio=bio)
         return dict(reader=st, bio=bio)
 
+    def build(self, i):
+        """a real asyncio.StreamReader holding the rest of the stream (end of stream after it) and a real BytesIO"""
+        import warnings
+        data = bytes.fromhex(i['stream']['hex'])[i.get('pos', 0):]
+        with warnings.catch_warnings():
+            warnings.simplefilter('ignore')
+            loop = asyncio.new_event_loop()
+            rd = asyncio.StreamReader(loop=loop)
+        rd.feed_data(data)
+        rd.feed_eof()
+        return (rd, io.BytesIO()), {}
+
     def post(c, cx, result, reader, bio):
         g = cx.run.ghost['rs']
         st, p0 = g['st'], g['p0']
